@@ -21,8 +21,10 @@ structure ChangeObs where
   best : Bool
   any : Bool
   replaced : Option Nat
-  /-- `ecmp_paths().len()` -/
-  ecmp : Nat
+  /-- local path id of `new_best()` -/
+  newBest : Option Nat
+  /-- local path ids of `ecmp_paths()` -/
+  ecmp : List Nat
   paths : List PathRef
   deriving DecidableEq, Repr, Inhabited
 
@@ -46,20 +48,30 @@ structure DEntry where
 structure LocObs where
   net : Net
   destId : Nat
-  ecmp : Nat
+  /-- local path ids of `ecmp_paths()` -/
+  ecmp : List Nat
   paths : List PathRef
   deriving DecidableEq, Repr, Inhabited
 
 structure FamObs where
   fam : Fam
-  /-- every path of every destination, in list order -/
+  /-- `destinations(Global, family, [], enable_filtered = true)`: every path of every destination,
+      in list order -/
   dests : List (Net × List DEntry)
+  /-- `destinations(Global, family, [], enable_filtered = false)` (what ListPath shows by default) -/
+  nofilt : List (Net × List DEntry)
   /-- `collect_loc_rib_paths(family)` -/
   loc : List LocObs
-  /-- local path ids of `collect_loc_rib_paths_limited(family, 2)` -/
+  /-- local path ids of `collect_loc_rib_paths_limited(family, 2)` and `(family, 3)` -/
   lim2 : List (Net × List Nat)
+  lim3 : List (Net × List Nat)
   /-- `state(family)` = (destinations, paths, accepted) -/
   state : Nat × Nat × Nat
+  /-- `destinations(AdjIn(peer), family, [], true)` for every peer address of the case -/
+  adjIn : List (Nat × List (Net × List DEntry))
+  /-- `destinations(RsLocal(peer), family, [], true)` for every peer address of the case: the one
+      path shown per prefix -/
+  rsLocal : List (Nat × List (Net × DEntry))
   deriving DecidableEq, Repr, Inhabited
 
 structure StepObs where
@@ -71,6 +83,9 @@ structure StepObs where
   ctrs : List (Nat × Fam × Nat)
   stale : List Nat
   llgr : List Nat
+  /-- coverage markers (which interesting branch the step took); computed from the operation and
+      its result on both sides -/
+  cov : List String
   deriving DecidableEq, Repr, Inhabited
 
 structure Obs where
@@ -80,9 +95,11 @@ structure Obs where
 
 /-! ## Reading the observation off the model -/
 
+/-- stable insertion sort (as Rust's `sort_by`): `x` goes in front of the first element that is not
+    smaller than it; elements are inserted from the right end -/
 def insertBy {α} (lt : α → α → Bool) (x : α) : List α → List α
   | [] => [x]
-  | y :: l => if lt x y then x :: y :: l else y :: insertBy lt x l
+  | y :: l => if lt y x then y :: insertBy lt x l else x :: y :: l
 def sortOn {α} (lt : α → α → Bool) (l : List α) : List α := l.foldr (insertBy lt) []
 
 def Fam.idx : Fam → Nat
@@ -97,49 +114,99 @@ def allFams : List Fam := [Fam.v4, Fam.ev]
 
 def Entry.ref (e : Entry) : PathRef := { lpid := e.lpid, src := e.src.id, attr := e.attr.id, nh := e.nh }
 
-def Change.obs (fl : Flags) (c : Change) : ChangeObs :=
-  { fam := c.fam, net := c.net, destId := c.destId, best := c.best, any := c.any, replaced := c.replaced,
-    ecmp := ecmpCount fl c.net.t2 c.paths, paths := c.paths.map Entry.ref }
+/-- `shard_idx << 24 | local id` -/
+def packId (shard id : Nat) : Nat := shard * 16777216 + id
 
-def changesObs (fl : Flags) (cs : List Change) : List ChangeObs :=
-  sortOn (fun a b => famNetLt (a.fam, a.net) (b.fam, b.net)) (cs.map (Change.obs fl))
+/-- local path ids of `ecmp_paths()` -/
+def ecmpIds (fl : Flags) (t2 : Bool) (es : List Entry) : List Nat := (es.take (ecmpCount fl t2 es)).map (·.lpid)
 
-def Res.obs (fl : Flags) : Res → ResObs
+def Change.obs (sh : Nat) (fl : Flags) (c : Change) : ChangeObs :=
+  { fam := c.fam, net := c.net, destId := packId sh c.destId, best := c.best, any := c.any, replaced := c.replaced,
+    newBest := c.paths.head?.map (·.lpid), ecmp := ecmpIds fl c.net.t2 c.paths, paths := c.paths.map Entry.ref }
+
+def changesObs (sh : Nat) (fl : Flags) (cs : List Change) : List ChangeObs :=
+  sortOn (fun a b => famNetLt (a.fam, a.net) (b.fam, b.net)) (cs.map (Change.obs sh fl))
+
+def Res.obs (sh : Nat) (fl : Flags) : Res → ResObs
   | .unit => .unit
   | .noChange => .noChange
   | .limit => .limit
-  | .changed c => .ch (c.obs fl)
+  | .changed c => .ch (c.obs sh fl)
   | .removed none => .unit
-  | .removed (some c) => .ch (c.obs fl)
-  | .changes cs => .chs (changesObs fl cs)
+  | .removed (some c) => .ch (c.obs sh fl)
+  | .changes cs => .chs (changesObs sh fl cs)
 
-def famObs (t : Table) (f : Fam) : FamObs :=
+def dentryOf (fl : Flags) (e : Entry) : DEntry :=
+  { src := e.src.id, rpid := e.rpid, attr := e.attr.id, stale := e.isStale fl, filtered := e.filtered }
+
+/-- the peer addresses of a case, ascending, without duplicates -/
+def Case.addrs (c : Case) : List Nat := sortOn (fun a b => decide (a < b)) (c.srcs.map (·.addr)).eraseDups
+
+/-- `Table::rs_local_paths`: the best usable path among the route-server clients other than `peer`
+    (the list is ranked, so it is the first such entry) -/
+def rsLocalOf (peer : Nat) (es : List Entry) : Option Entry :=
+  es.find? fun e => e.src.role == .rs && !sameAddr peer e && e.eligible
+
+/-- keep the destinations for which `sel` shows something -/
+def viewOf {β} (sel : List Entry → Option β) (ds : List (Net × Dest)) : List (Net × β) :=
+  sortOn (fun a b => a.1.lt b.1) (ds.filterMap fun nd => (sel nd.2.entries).map fun b => (nd.1, b))
+
+def nonEmptyList {β} (l : List β) : Option (List β) := if l.isEmpty then none else some l
+
+def famObs (c : Case) (t : Table) (f : Fam) : FamObs :=
   let r := t.rib f
   let fl := t.flags
-  let nonEmpty := r.dests.filter fun nd => !nd.2.entries.isEmpty
   { fam := f
-    dests := sortOn (fun a b => a.1.lt b.1) (nonEmpty.map fun nd =>
-      (nd.1, nd.2.entries.map fun e =>
-        { src := e.src.id, rpid := e.rpid, attr := e.attr.id, stale := e.isStale fl, filtered := e.filtered }))
-    loc := sortOn (fun a b => a.net.lt b.net) ((r.collect f none).map fun c =>
-      { net := c.net, destId := c.destId, ecmp := ecmpCount fl c.net.t2 c.paths, paths := c.paths.map Entry.ref })
-    lim2 := sortOn (fun a b => a.1.lt b.1) ((r.collect f (some 2)).map fun c => (c.net, c.paths.map (·.lpid)))
-    state := r.state }
+    dests := viewOf (fun es => nonEmptyList (es.map (dentryOf fl))) r.dests
+    nofilt := viewOf (fun es => nonEmptyList ((es.filter fun e => !e.filtered).map (dentryOf fl))) r.dests
+    loc := sortOn (fun a b => a.net.lt b.net) ((r.collect f none).map fun ch =>
+      { net := ch.net, destId := packId c.shard ch.destId, ecmp := ecmpIds fl ch.net.t2 ch.paths,
+        paths := ch.paths.map Entry.ref })
+    lim2 := sortOn (fun a b => a.1.lt b.1) ((r.collect f (some 2)).map fun ch => (ch.net, ch.paths.map (·.lpid)))
+    lim3 := sortOn (fun a b => a.1.lt b.1) ((r.collect f (some 3)).map fun ch => (ch.net, ch.paths.map (·.lpid)))
+    state := r.state
+    adjIn := c.addrs.map fun a =>
+      (a, viewOf (fun es => nonEmptyList ((es.filter (sameAddr a)).map (dentryOf fl))) r.dests)
+    rsLocal := c.addrs.map fun a =>
+      (a, viewOf (fun es => (rsLocalOf a es).map fun e => { dentryOf fl e with rpid := 0, filtered := false }) r.dests) }
 
-def stepObs (c : Case) (tr : Table × Res) : StepObs :=
+def Op.isPurgeOp : Op → Bool
+  | .drop .. => true
+  | .dropStale .. => true
+  | .dropLlgr .. => true
+  | .dropNoLlgr .. => true
+  | _ => false
+
+/-- coverage markers of a step -/
+def covOf (op : Op) (t : Table) (r : Res) : List String :=
+  let chs := match r with
+    | .changed ch => [ch]
+    | .removed (some ch) => [ch]
+    | .changes cs => cs
+    | _ => []
+  (if op.isPurgeOp && !chs.isEmpty then ["purge-hit"] else []) ++
+  (match op with
+   | .restale .. => if chs.any (·.best) then ["restale-rebest"] else []
+   | .restaleLlgr .. => if chs.any (·.best) then ["restale-llgr-rebest"] else []
+   | _ => []) ++
+  (if (t.v4.collect .v4 none ++ t.ev.collect .ev none).any (fun ch => ch.destId ≥ 64) then ["id-ge-64"] else []) ++
+  (if (t.v4.collect .v4 none ++ t.ev.collect .ev none).any (fun ch => ch.destId ≥ 128) then ["id-ge-128"] else [])
+
+def stepObs (c : Case) (op : Op) (tr : Table × Res) : StepObs :=
   let (t, r) := tr
   let addrs := c.srcs.map (·.addr)
-  { res := r.obs t.flags
-    fams := allFams.map (famObs t)
+  { res := r.obs c.shard t.flags
+    fams := allFams.map (famObs c t)
     stats := (sortOn (fun a b => natFamLt a.1 b.1) (t.stats.filter fun s => addrs.contains s.1.1)).map
       fun s => (s.1.1, s.1.2, s.2.1, s.2.2)
     ctrs := (sortOn (fun a b => natFamLt a.1 b.1) (t.ctrs.filter fun s => s.2 != 0)).map
       fun s => (s.1.1, s.1.2, s.2)
     stale := sortOn (fun a b => decide (a < b)) (t.stale.filter fun i => i < c.srcs.length)
-    llgr := sortOn (fun a b => decide (a < b)) (t.llgr.filter fun i => i < c.srcs.length) }
+    llgr := sortOn (fun a b => decide (a < b)) (t.llgr.filter fun i => i < c.srcs.length)
+    cov := covOf op t r }
 
 def observe (p : Profile) (c : Case) : Obs :=
   let (l, pn) := run p c
-  { steps := l.map (stepObs c), panicked := pn }
+  { steps := List.zipWith (stepObs c) c.ops l, panicked := pn }
 
 end Rbgp.Rib
